@@ -290,7 +290,7 @@ def calibration_single_ended_solver(  # noqa: MC0001
         for transient_att_xi in trans_att:
             # first index on the right hand side a the difficult splice
             # Deal with connector outside of fiber
-            if transient_att_xi >= x_sec[-1]:
+            if transient_att_xi > x_sec[-1]:
                 ix_sec_ta_ix0 = nx
             elif transient_att_xi <= x_sec[0]:
                 ix_sec_ta_ix0 = 0
@@ -1790,7 +1790,7 @@ def construct_submatrices_matching_sections(x, ix_sec, hix, tix, nt, trans_att):
             #
             # first index on the right hand side a the difficult splice
             # Deal with connector outside of fiber
-            if trans_atti >= x[-1]:
+            if trans_atti > x[-1]:
                 ix_ta_ix0 = x.size
             elif trans_atti <= x[0]:
                 ix_ta_ix0 = 0
@@ -1945,7 +1945,7 @@ def construct_submatrices(sections, nt, nx, ds, trans_att, x_sec):
             #
             # first index on the right hand side a the difficult splice
             # Deal with connector outside of fiber
-            if trans_atti >= x_sec[-1]:
+            if trans_atti > x_sec[-1]:
                 ix_sec_ta_ix0 = nx
             elif trans_atti <= x_sec[0]:
                 ix_sec_ta_ix0 = 0
